@@ -20,6 +20,11 @@ import (
 func verifClock(format string) {
 	// quick: only the package mtime is symbolic; thorough: source and entry mtimes too
 	sc := scen.Payload(scen.Options{SymPkgTime: true, SymTimes: v.Thorough(), Second: 3})
+	if v.NondetBool("pkg.mtime.is.the.epoch") {
+		// SOURCE_DATE_EPOCH=0: a set, non-zero time.Time whose Unix() is 0
+		sc.MTime = time.Unix(0, 0).UTC()
+		sc.Info.MTime = sc.MTime
+	}
 	models.Hostname = v.NondetString("hostname", 2)
 	smt := time.Unix(1400000000, 0).UTC()
 	sc.Info.Scripts.PostInstall = models.AddFile("/scripts/post", []byte("x"), 0o755, smt)
@@ -36,7 +41,7 @@ func verifClock(format string) {
 	if !ok {
 		return
 	}
-	allowed := []int64{sc.MTime.Unix(), smt.Unix()}
+	allowed := []int64{sc.MTime.Unix(), smt.Unix(), sc.Info.MTime.Unix()}
 	for _, w := range sc.Wants {
 		allowed = append(allowed, w.MTime.Unix())
 	}
